@@ -52,6 +52,8 @@ var (
 	c12kpUnchanged = core.RegCounter("c12.keypair_marshal_unchanged_after_signing")
 	c12modelDec    = core.RegCounter("c12.model_verify_decisions_compared")
 	c12wrongLen    = core.RegCounter("c12.wrong_length_encodings_offered_to_decoders")
+	c12skEdits     = core.RegCounter("c12.byzantine_secret_key_and_keypair_encodings")
+	c12reuse       = core.RegCounter("c12.transcript_objects_reused_across_verify_and_add")
 )
 
 var c12altKinds = []string{"sig-bit", "marker-cleared", "s-plus-L", "R-negated", "R-top-bit", "R-swapped", "sig-truncated", "sig-extended", "other-context", "other-message", "other-key", "pk-bit", "pk-non-canonical", "s-plus-delta"}
@@ -124,8 +126,9 @@ func srModelVerify(t0 *model.MTranscript, pk, sig []byte) bool {
 // context is a long-lived object that signers and verifiers reuse for many
 // transcripts, so it must not accumulate state.
 type c12Ctxs struct {
-	keys []string
-	vals []*sr25519.SigningContext
+	keys   []string
+	vals   []*sr25519.SigningContext
+	reused int
 }
 
 func (c *c12Ctxs) get(ctx []byte) *sr25519.SigningContext {
@@ -141,13 +144,14 @@ func (c *c12Ctxs) get(ctx []byte) *sr25519.SigningContext {
 }
 
 type c12Src struct {
-	cs    *c12Ctxs
-	kind  int // 0 bytes, 1 hash, 2 xof
-	hsel  int
-	ctx   []byte
-	msg   []byte
-	label string
-	data  []byte // what gets appended under label
+	shared *sr25519.SigningTranscript
+	cs     *c12Ctxs
+	kind   int // 0 bytes, 1 hash, 2 xof
+	hsel   int
+	ctx    []byte
+	msg    []byte
+	label  string
+	data   []byte // what gets appended under label
 }
 
 func c12Hash(sel int) hash.Hash {
@@ -200,8 +204,23 @@ func (s *c12Src) resolve() {
 
 func (s *c12Src) model() *model.MTranscript { return model.SrTranscript(s.ctx, s.label, s.data) }
 
-// transcript builds the library transcript fault-free (for verification sides).
-func (s *c12Src) transcript() *sr25519.SigningTranscript {
+// transcript returns a library transcript for verification sides.  A signing
+// transcript is a value callers keep and pass to several Verify / Add calls (Sign,
+// Verify and Add work on clones), so with reuse=true the source hands out the SAME
+// object again; a callee that appends to its argument shows as a later mismatch.
+func (s *c12Src) transcript(reuse bool) *sr25519.SigningTranscript {
+	if reuse && s.shared != nil {
+		s.cs.reused++
+		return s.shared
+	}
+	st := s.fresh()
+	if reuse {
+		s.shared = st
+	}
+	return st
+}
+
+func (s *c12Src) fresh() *sr25519.SigningTranscript {
 	sc := s.cs.get(s.ctx)
 	switch s.kind {
 	case 0:
@@ -411,6 +430,46 @@ func runC12(e *Env, r *core.Run) {
 		}
 	}
 
+	// Byzantine encodings of the secret key and the key pair: scalar with bit 255 set, scalar + L,
+	// public half of another key; everything accepted must re-marshal to the same bytes
+	{
+		nontrivial = true
+		b := clone(kpb)
+		kind := []string{"scalar-bit-255", "scalar-plus-L", "keypair-other-public-half", "nonce-bit"}[t.W(4)]
+		mustReject := true
+		switch kind {
+		case "scalar-bit-255":
+			b[31] |= 0x80
+		case "scalar-plus-L":
+			addL(b[:32])
+		case "keypair-other-public-half":
+			copy(b[64:], pkb2)
+		default:
+			b[32+t.W(32)] ^= 1 << uint(t.W(8))
+			mustReject = false // a different nonce is a different, valid secret key
+		}
+		r.Count(c12skEdits)
+		sk, serr := sr25519.NewSecretKeyFromBytes(b[:64])
+		kpx, kerr := sr25519.NewKeyPairFromBytes(b)
+		r.Ev("secret-key edit %s -> secret key err=%v, key pair err=%v", kind, serr != nil, kerr != nil)
+		if mustReject && kerr == nil {
+			r.Fail("encoding", "keypair-decoder-accepted-"+kind, "KeyPair decoding accepted an encoding with %s", kind)
+			return
+		}
+		if mustReject && kind != "keypair-other-public-half" && serr == nil {
+			r.Fail("encoding", "secretkey-decoder-accepted-"+kind, "SecretKey decoding accepted an encoding with %s", kind)
+			return
+		}
+		if serr == nil && !bytes.Equal(mustMarshal(sk.MarshalBinary()), b[:64]) {
+			r.Fail("encoding", "secret-key-remarshal", "an accepted secret key re-marshals to different bytes")
+			return
+		}
+		if kerr == nil && !bytes.Equal(mustMarshal(kpx.MarshalBinary()), b) {
+			r.Fail("encoding", "keypair-remarshal", "an accepted key pair re-marshals to different bytes")
+			return
+		}
+	}
+
 	// ---------------- signing requests ----------------
 	var tuples []*c12Tuple
 	var honest []*c12Tuple
@@ -566,11 +625,13 @@ func runC12(e *Env, r *core.Run) {
 				tp.sig = append(tp.sig, byte(t.W(256)))
 			case "other-context":
 				s2 := *h.src
+				s2.shared = nil
 				s2.ctx = append(clone(h.src.ctx), 1)
 				s2.resolve()
 				tp.src = &s2
 			case "other-message":
 				s2 := *h.src
+				s2.shared = nil
 				s2.msg = append(clone(h.src.msg), byte(t.W(256)))
 				s2.resolve()
 				tp.src = &s2
@@ -641,7 +702,7 @@ func runC12(e *Env, r *core.Run) {
 		got := false
 		if tp.decodeOK {
 			tp.lpk, tp.lsig = lpk, lsig
-			got = lpk.Verify(tp.src.transcript(), lsig)
+			got = lpk.Verify(tp.src.transcript(t.W(2) == 1), lsig)
 		} else {
 			r.Count(c12decRej)
 		}
@@ -700,6 +761,7 @@ func runC12(e *Env, r *core.Run) {
 	if len(pool) > 0 {
 		c12BatchHistory(r, e, pool)
 	}
+	r.CountN(c12reuse, int64(ctxs.reused))
 	r.Nontrivial = nontrivial
 }
 
@@ -730,7 +792,7 @@ func c12BatchHistory(r *core.Run, e *Env, pool []*c12Tuple) {
 		all := true
 		for i := 0; i < n; i++ {
 			tp := pool[t.W(len(pool))]
-			bv.Add(tp.lpk, tp.src.transcript(), tp.lsig)
+			bv.Add(tp.lpk, tp.src.transcript(t.W(2) == 1), tp.lsig)
 			want = append(want, tp.want)
 			all = all && tp.want
 			r.Count(c12batchEnt)
